@@ -99,7 +99,50 @@ func init() {
 	}
 }
 
+// c03Soup: the string-first expression oracle (gen/exprsoup.go).
+func c03Soup(c *core.Ctx, idx int) {
+	r := core.NewRand(c.P.Seed, "C03soup", idx)
+	fam := 7
+	if r.Chance(2, 5) {
+		fam = 5
+	}
+	src, want, valid, ops := gen.ExprSoup(r, fam)
+	ver := progVersion(r, fam, false)
+	c.Inflight([]byte(src), "C03 expression soup "+ver)
+	pr := obs.Parse([]byte(src), ver, true)
+	w := core.W([]byte(src), ver).With("oracle", "string-first precedence-climbing reference")
+	c.Add("expression_soup_cases", 1)
+	for i := 0; i+1 < len(ops); i++ {
+		c.Res().Cover["soup_adjacent_operator_pairs"] = addTo(c.Res().Cover["soup_adjacent_operator_pairs"], ops[i]+" "+ops[i+1], 1)
+	}
+	if pr.Panic != nil {
+		c.Violation(pr.Panic.Sig, "Parse panicked: "+pr.Panic.Msg, w)
+		return
+	}
+	if !valid {
+		c.Add("expression_soup_reference_says_syntax_error", 1)
+		if len(pr.Errors) == 0 {
+			c.Violation(fmt.Sprintf("soup|fam%d|accepts-nonassociative-chain", fam), "the reference parser rejects this expression (chain of non-associative operators), the parser accepted it silently", w)
+		}
+		return
+	}
+	if len(pr.Errors) > 0 {
+		c.Violation(fmt.Sprintf("soup|fam%d|rejected|%s", fam, numStrip(pr.Errors[0].Msg)), "an unparenthesised expression that PHP's precedence rules accept is rejected: "+pr.Errors[0].String(), w)
+		return
+	}
+	got := obs.StructureCanon(pr.Root)
+	if exp := want.Canon(); got != exp {
+		c.Violation(fmt.Sprintf("soup|fam%d|grouping|%s", fam, structSig(exp, got)), "operators group differently from PHP's documented precedence/associativity: "+obs.FirstDiff(exp, got), w)
+		return
+	}
+	c.NonTrivial([]byte(src), []byte(ver))
+}
+
 func c03Case(c *core.Ctx, idx int) {
+	if idx%3 == 2 {
+		c03Soup(c, idx)
+		return
+	}
 	r := core.NewRand(c.P.Seed, "C03", idx)
 	fam := 7
 	if r.Chance(2, 5) {
@@ -185,7 +228,7 @@ func addTo(m map[string]int64, k string, v int64) map[string]int64 {
 func init() {
 	core.Register(&core.Check{
 		ID:   "C03",
-		Rule: "cases = known-finding witnesses ++ generated programs (G1: every statement and expression form of the PHP 5 / PHP 7 grammars nested to PRNG depth, operators parenthesised minimally from PHP's documented precedence table, keywords/casts in PRNG letter case) rendered in the canonical and one PRNG trivia layout, parsed under a PRNG version of the family that has the syntax ++ version-specific acceptance probes; non-trivial = program accepted and structure compared; distinct by (expected structure, version)",
+		Rule: "cases = known-finding witnesses ++ generated programs (G1: every statement and expression form of the PHP 5 / PHP 7 grammars nested to PRNG depth, operators parenthesised minimally from PHP's documented precedence table, keywords/casts in PRNG letter case) rendered in the canonical and one PRNG trivia layout, parsed under a PRNG version of the family that has the syntax ++ version-specific acceptance probes ++ (every third case) a random unparenthesised operator/operand token string judged by an independent precedence-climbing reference parser (expected tree, or syntax error for non-associative chains); non-trivial = program accepted and structure compared; distinct by (expected structure, version)",
 		Assumptions: []string{
 			"the generator's construct -> (kind, roles) mapping is the specification of the AST; operator grouping comes from php.net's precedence/associativity table for PHP 7.4 (5.6 for the 5.x family)",
 			"'valid' means derivable from PHP's grammar; semantic restrictions (abstract final, duplicate modifiers, mixing namespace forms) are out of scope",
